@@ -6,7 +6,9 @@ design : ActionAPI_MC - ExecuteActions (one scoped view per action, committed in
          + sensitivity: without the allocate permission the simulated keys are NOT sufficient (expected violation)
 binding: (tv) a real morpheusvm VM (vmtest) - per round the real JSONRPCServer.ExecuteActions and SimulateActions replies and
          the result of a real transaction with the same actions submitted, built, verified and accepted on the same accepted
-         state (every other round declaring exactly the simulated keys) are validated by TLC against ActionFold / RunTxA"""
+         state (every other round declaring exactly the simulated keys) are validated by TLC against ActionFold / RunTxA
+         (tv, fault dimension) the same two API methods over a driver-implemented api.VM whose read of one balance record fails
+         once with a transient error: either an error is reported or exactly the fold's outputs; never "record absent"."""
 import json
 import os
 import re
@@ -15,7 +17,7 @@ import vlib
 LEVEL = "model_checking"
 MOD = os.path.join(vlib.REPO, "examples", "morpheusvm")
 PKG = "vm"
-FILES = ["verif_actionapi_test.go"]
+FILES = ["verif_actionapi_test.go", "verif_actionapi_fault_test.go"]
 
 
 def sig(f):
@@ -26,6 +28,11 @@ def sig(f):
 
 def describe(f):
     ev = f.get("event") or {}
+    if ev.get("ev") == "fault":
+        return "diag=%s actor=%s pre=%s actions=%s unreadable=%s at read %s (hit: execute=%s simulate=%s) exec=%s sim.ok=%s sim.outs=%s" % (
+            f.get("diag"), ev.get("actor"), json.dumps(ev.get("pre")), json.dumps(ev.get("actions"))[:400], ev.get("failkey"),
+            ev.get("failcall"), ev.get("execfault"), ev.get("simfault"), json.dumps(ev.get("exec"))[:400],
+            (ev.get("sim") or {}).get("ok"), json.dumps((ev.get("sim") or {}).get("outs"))[:200])
     return "diag=%s kind=%s actor=%s sponsor=%s pre=%s actions=%s exec=%s sim.ok=%s sim.outs=%s chain=%s" % (
         f.get("diag"), ev.get("kind"), ev.get("actor"), ev.get("sponsor"), json.dumps(ev.get("pre")),
         json.dumps(ev.get("actions"))[:500], json.dumps(ev.get("exec"))[:400], (ev.get("sim") or {}).get("ok"),
@@ -33,8 +40,9 @@ def describe(f):
 
 
 def record(ctx, groups, rounds):
-    rc, out = vlib.go_driver(ctx, PKG, "^TestVerifActionAPI$", module_dir=MOD, files=FILES, timeout=2400,
-                             env={"VERIF_SCENARIOS": groups, "VERIF_ROUNDS": rounds})
+    rc, out = vlib.go_driver(ctx, PKG, "^TestVerifActionAPI(Faults)?$", module_dir=MOD, files=FILES, timeout=2400,
+                             env={"VERIF_SCENARIOS": groups, "VERIF_ROUNDS": rounds,
+                                  "VERIF_FAULT_FILES": ctx.pick(6, 40), "VERIF_FAULT_CASES": ctx.pick(80, 250)})
     if rc != 0:
         pn = vlib.panic_in_repo(out)
         if pn:
@@ -45,16 +53,29 @@ def record(ctx, groups, rounds):
     fs = vlib.scenario_files(ctx, "api")
     if not fs:
         raise vlib.Infra("action API recorder wrote no scenarios")
-    return fs
+    return fs + vlib.scenario_files(ctx, "flt")
 
 
 def stats(ctx, files):
-    feats = {"rounds": 0, "actions": 0, "failing_lists": 0, "scoped_rounds": 0, "scoped_rounds_needing_allocate": 0,
+    feats = {"fault_cases": 0, "read_faults_hit_in_execute": 0, "read_faults_hit_in_simulate": 0,
+             "execute_answered_despite_fault": 0, "fault_on_first_load_of_existing_recipient": 0, "rounds": 0, "actions": 0, "failing_lists": 0, "scoped_rounds": 0, "scoped_rounds_needing_allocate": 0,
              "sponsor_is_actor": 0, "self_transfers": 0, "lists_with_ge5_actions": 0, "recipient_without_record": 0}
     shapes = set()
     sample = None
     for f in files:
         for l in vlib.read_ndjson(f):
+            if l.get("ev") == "fault":
+                feats["fault_cases"] += 1
+                feats["read_faults_hit_in_execute"] += 1 if l["execfault"] else 0
+                feats["read_faults_hit_in_simulate"] += 1 if l["simfault"] else 0
+                feats["execute_answered_despite_fault"] += 1 if l["execfault"] and not l["exec"]["failed"] else 0
+                k = l["failkey"]
+                firsts = [i + 1 for i, a in enumerate(l["actions"]) if a["to"] == k]
+                if l["execfault"] and k != l["actor"] and l["pre"].get(k, 0) > 0 and firsts and firsts[0] == l["failcall"]:
+                    feats["fault_on_first_load_of_existing_recipient"] += 1
+                if l["execfault"] or l["simfault"]:
+                    shapes.add(json.dumps([l["pre"], l["actor"], l["actions"], l["failkey"], l["failcall"]], sort_keys=True))
+                continue
             if l.get("ev") != "round":
                 continue
             feats["rounds"] += 1
@@ -74,7 +95,7 @@ def stats(ctx, files):
                 sample = {"kind": "recorded round", "actor": l["actor"], "sponsor": l["sponsor"], "pre": l["pre"],
                           "actions": l["actions"][:4], "execute": l["exec"]["outs"][:4], "simulated_keys": l["sim"]["keys"][:4],
                           "chain": {"ok": l["chain"]["ok"], "outs": l["chain"]["outs"][:4], "fee": l["chain"]["fee"]}}
-    ctx.add("evaluations", feats["rounds"])
+    ctx.add("evaluations", feats["rounds"] + feats["fault_cases"])
     ctx.add("distinct_nontrivial", len(shapes))
     for k, v in feats.items():
         ctx.add(k, v)
@@ -111,7 +132,8 @@ def run(ctx):
         raise design["exc"]
     feats = stats(ctx, files)
     if ctx.only is None:
-        for k in ("failing_lists", "scoped_rounds", "scoped_rounds_needing_allocate", "self_transfers"):
+        for k in ("failing_lists", "scoped_rounds", "scoped_rounds_needing_allocate", "self_transfers",
+                  "read_faults_hit_in_execute", "read_faults_hit_in_simulate", "fault_on_first_load_of_existing_recipient"):
             if feats[k] == 0:
                 raise vlib.Infra("vacuous: no recorded round exercised " + k)
     fails = vlib.validate_scenarios(ctx, "ActionAPI_Trace", "ActionAPI_Trace.cfg", files, label="tv", signature_fn=sig)
@@ -122,7 +144,8 @@ def run(ctx):
                        "12-16 rounds; a round = actor + list of 1-16 real Transfer actions with values around the actor's balance "
                        "(whole balance, one less, self-transfers 25%, a quarter of the lists contain a failing action), answered by "
                        "ExecuteActions, SimulateActions and one accepted transaction (odd rounds: declaring exactly the simulated "
-                       "keys); distinct_nontrivial = distinct (state, actor, actions, kind) with >= 2 actions or a failing action")
+                       "keys); distinct_nontrivial = distinct (state, actor, actions, kind) with >= 2 actions or a failing action, plus distinct "
+                       "fault cases (state, actor, 1-5 transfers, unreadable record, read index) in which the injected failure was hit")
     ctx.assumptions += ["SimulateActions answering with an error (and no outputs) for a list that contains a failing action is "
                         "accepted: the statement speaks about the outputs it returns",
                         "action ids and timestamps differ between the APIs and a transaction by construction; Transfer ignores both",
